@@ -42,6 +42,10 @@ OPERATORS_MAP = {
     '<=': operator.le,
 }
 
+# The symbols of the other comparison operators of XPath 2.0+: a comparison
+# expression is not associative over the whole set of comparison operators.
+COMPARISON_SYMBOLS = frozenset(('eq', 'ne', 'lt', 'le', 'gt', 'ge', 'is', '<<', '>>'))
+
 register = XPath1Parser.register
 nullary = XPath1Parser.nullary
 infix = XPath1Parser.infix
@@ -76,7 +80,7 @@ def evaluate__and_operator(self: XPathToken, context: ta.ContextType = None) -> 
 @method('<=', bp=30)
 @method('>=', bp=30)
 def led__comparison_operators(self: XPathToken, left: XPathToken) -> XPathToken:
-    if left.symbol in OPERATORS_MAP:
+    if left.symbol in OPERATORS_MAP or left.symbol in COMPARISON_SYMBOLS:
         raise self.wrong_syntax()
     self[:] = left, self.parser.expression(rbp=30)
     return self
